@@ -4,9 +4,12 @@ import (
 	"encoding/json"
 	"fmt"
 	"net/http/httptest"
+	"os"
+	"os/exec"
 	"path/filepath"
 	"reflect"
 	"strings"
+	"sync"
 	"testing"
 
 	textwire "github.com/textwire/textwire/v2"
@@ -126,15 +129,94 @@ func (h *histEnv) exec(op histOp) string {
 // baselines are cached per (tree, configuration, operations).
 var c16BaseCache = map[uint64][]string{}
 
+// c16FreshBaselines issues every operation first in a process of its own (the
+// test binary re-executes itself): nothing an earlier call may have left behind
+// anywhere in the process can be in the baseline. ok is false when the probe
+// processes cannot be run.
+func c16FreshBaselines(cs histCase) ([]string, bool) {
+	exe, err := os.Executable()
+	if err != nil || os.Getenv("VERIF_PROBE_CASE") != "" {
+		return nil, false
+	}
+	dir, err := os.MkdirTemp("", "verif-c16-")
+	if err != nil {
+		return nil, false
+	}
+	defer os.RemoveAll(dir)
+	file := filepath.Join(dir, "case.json")
+	cs.History = nil
+	if os.WriteFile(file, []byte(mustJSON(cs)), 0o644) != nil {
+		return nil, false
+	}
+	base := make([]string, len(cs.Ops))
+	okAll := true
+	var wg sync.WaitGroup
+	var mu sync.Mutex
+	sem := make(chan struct{}, 8)
+	for i := range cs.Ops {
+		wg.Add(1)
+		go func(i int) {
+			defer wg.Done()
+			sem <- struct{}{}
+			defer func() { <-sem }()
+			cmd := exec.Command(exe, "-test.run", "^TestC16_Probe$", "-test.v")
+			cmd.Env = append(os.Environ(), "VERIF_PROBE_CASE="+file, fmt.Sprintf("VERIF_PROBE_OP=%d", i), "VERIF_OUT=", "VERIF_CORPUS=", "VERIF_NO_WATCHDOG=1")
+			out, err := cmd.CombinedOutput()
+			s := string(out)
+			a, b := strings.Index(s, "PROBE-OUTCOME-BEGIN\n"), strings.Index(s, "\nPROBE-OUTCOME-END")
+			mu.Lock()
+			defer mu.Unlock()
+			if err != nil || a < 0 || b < 0 {
+				okAll = false
+				return
+			}
+			base[i] = s[a+len("PROBE-OUTCOME-BEGIN\n") : b]
+		}(i)
+	}
+	wg.Wait()
+	return base, okAll
+}
+
+// TestC16_Probe is the child-process side of c16FreshBaselines.
+func TestC16_Probe(t *testing.T) {
+	path := os.Getenv("VERIF_PROBE_CASE")
+	if path == "" || os.Getenv("VERIF_PROBE_OP") == "" {
+		t.Skip("not a probe process")
+	}
+	b, err := os.ReadFile(path)
+	if err != nil {
+		t.Fatal(err)
+	}
+	cs, err := unJSON[histCase](b)
+	if err != nil {
+		t.Fatal(err)
+	}
+	var i int
+	fmt.Sscan(os.Getenv("VERIF_PROBE_OP"), &i)
+	h, herr := c16Load(cs)
+	if herr != "" {
+		t.Fatal(herr)
+	}
+	fmt.Printf("PROBE-OUTCOME-BEGIN\n%s\nPROBE-OUTCOME-END\n", h.exec(cs.Ops[i]))
+}
+
 func c16Run(c *harness.Check, cs histCase) string {
 	var failure string
+	// baselines: each operation issued first in a fresh state (a fresh process; a
+	// fresh load in this process only when probe processes cannot be started)
+	keyCase := cs
+	keyCase.History = nil
+	key := harness.Hash(mustJSON(keyCase))
+	base, cached := c16BaseCache[key]
+	if !cached {
+		var ok bool
+		if base, ok = c16FreshBaselines(cs); !ok {
+			c.Note("probe processes unavailable: baselines taken after a fresh load in this process")
+			base = nil
+		}
+	}
 	pi := c.Guard("json", mustJSON(cs), func() {
-		// baselines: each operation issued first in a fresh state
-		keyCase := cs
-		keyCase.History = nil
-		key := harness.Hash(mustJSON(keyCase))
-		base, cached := c16BaseCache[key]
-		if !cached {
+		if base == nil {
 			base = make([]string, len(cs.Ops))
 			for i, op := range cs.Ops {
 				h, herr := c16Load(cs)
@@ -144,8 +226,8 @@ func c16Run(c *harness.Check, cs histCase) string {
 				}
 				base[i] = h.exec(op)
 			}
-			c16BaseCache[key] = base
 		}
+		c16BaseCache[key] = base
 		h, herr := c16Load(cs)
 		if herr != "" {
 			failure = herr
@@ -199,6 +281,11 @@ func c16Trees() []histCase {
 		"retypesT": "{{ t0 = 3 }}<b>{{ t0 + 1 }}</b>{{ cnt = \"one\" }}",
 	}
 	empty := &spec.Data{}
+	// two different struct types with the same printed name: what a render makes of one
+	// must not depend on the other having been rendered before
+	pa := (&spec.Data{}).Add("p", &spec.Value{T: spec.FixedType("PersonA"), Items: []*spec.Value{spec.String("Ann"), spec.IntOf(spec.TInt, 31)}})
+	pb := (&spec.Data{}).Add("p", &spec.Value{T: spec.FixedType("PersonB"), Items: []*spec.Value{spec.IntOf(spec.TInt, 44), spec.String("Bob"), spec.String("bob@x")}})
+	files["person"] = "<p>{{ p.name }} {{ p.age }} {{ p }}</p>"
 	ops := []histOp{
 		{Kind: "string", Name: "home", Data: d}, {Kind: "string", Name: "plain", Data: d}, {Kind: "string", Name: "failing", Data: d},
 		{Kind: "string", Name: "failing2", Data: d}, {Kind: "string", Name: "nosuch", Data: d}, {Kind: "response", Name: "home", Data: d},
@@ -208,6 +295,7 @@ func c16Trees() []histCase {
 		{Kind: "string", Name: "setsT", Data: nil}, {Kind: "string", Name: "readsT", Data: nil}, {Kind: "string", Name: "retypesT", Data: nil},
 		{Kind: "response", Name: "setsT", Data: empty}, {Kind: "response", Name: "readsT", Data: empty}, {Kind: "string", Name: "setsT", Data: d},
 		{Kind: "evalfile", Name: "setsT", Data: nil}, {Kind: "evalstring", Src: "{{ t0 }}", Data: nil},
+		{Kind: "string", Name: "person", Data: pa}, {Kind: "string", Name: "person", Data: pb}, {Kind: "evalstring", Src: "{{ p.email }}/{{ p.Age }}", Data: pb},
 	}
 	return []histCase{
 		{Files: files, Ops: ops},
@@ -238,7 +326,7 @@ func c16NonTrivial(cs histCase) bool {
 func TestC16_HistoriesEnum(t *testing.T) {
 	maxLen := harness.Pick(2, 3)
 	c := harness.New(t, "C16", "histories-enum",
-		fmt.Sprintf("every history of length <= %d (2 quick, 3 thorough) over 22 operation instances {String, Response, EvaluateString, EvaluateFile} x {succeeding, failing at run time, not found} on a template directory with layout, component, loops and objects, under up to 6 configurations (debug on/off x no / working / missing / failing custom error page). Each operation's result (output, or error message + line + path, Response body + returned error) must equal the result of the same operation issued first after a fresh load; afterwards all operations still give their baselines, the configuration is unchanged and the caller's data is deep-equal to a copy. Non-trivial: a failing render or failing Response after a string/file evaluation or an error page. Distinct by construction.", maxLen))
+		fmt.Sprintf("every history of length <= %d (2 quick, 3 thorough) over 25 operation instances {String, Response, EvaluateString, EvaluateFile} x {succeeding, failing at run time, not found} on a template directory with layout, component, loops and objects, under up to 6 configurations (debug on/off x no / working / missing / failing custom error page). Each operation's result (output, or error message + line + path, Response body + returned error) must equal the result of the same operation issued first after a fresh load; afterwards all operations still give their baselines, the configuration is unchanged and the caller's data is deep-equal to a copy. Non-trivial: a failing render or failing Response after a string/file evaluation or an error page. Distinct by construction.", maxLen))
 	defer c.Finish()
 	trees := c16Trees()
 	ntrees := len(trees)
@@ -277,7 +365,7 @@ func TestC16_HistoriesEnum(t *testing.T) {
 		}
 		rec(nil)
 	}
-	c.ExhaustivePart(fmt.Sprintf("all histories of length <= %d over 22 operations x %d configurations", maxLen, ntrees))
+	c.ExhaustivePart(fmt.Sprintf("all histories of length <= %d over 25 operations x %d configurations", maxLen, ntrees))
 }
 
 func TestC16_HistoriesRandom(t *testing.T) {
